@@ -239,6 +239,28 @@ Example c05_artifact_before_frame_nonvacuous :
 Proof. exact art_example. Qed.
 Print Assumptions c05_artifact_before_frame_nonvacuous.
 
+(* ---- the snapshot file (rip_log::write_snapshot = create, ONE write of the whole JSON array, flush; the effect list is
+   read from the source by T1): a crash at ANY of its instructions leaves the file as it was (before the create), EMPTY, or
+   COMPLETE, whatever the payload length — never a proper part of the payload.  An empty file does not parse: the readers
+   (aggregate_session_output_text) fall back to the log; a complete one equals the stream in the log (harness oracle:
+   verify_snapshot on every recovered store) *)
+Theorem c05_snapshot_file_views : forall (old : option (list chunk)) (payload : list chunk) (k : nat),
+  snap_crash old payload k = old \/ snap_crash old payload k = Some [] \/ snap_crash old payload k = Some payload.
+Proof. exact snapshot_views. Qed.
+Print Assumptions c05_snapshot_file_views.
+
+Theorem c05_snapshot_file_complete : forall (old : option (list chunk)) (payload : list chunk) (k : nat),
+  (5 <= k)%nat -> snap_crash old payload k = Some payload.
+Proof. exact snapshot_complete. Qed.
+Print Assumptions c05_snapshot_file_complete.
+
+Example c05_snapshot_file_nonvacuous :
+  snap_crash None [Body (mkf 1 0 0 100 None)] 4 = Some []
+  /\ snap_crash None [Body (mkf 1 0 0 9000 None)] 3 = Some [Body (mkf 1 0 0 9000 None)]
+  /\ snap_crash (Some [NL]) [Body (mkf 1 0 0 100 None)] 0 = Some [NL].
+Proof. exact snapshot_example. Qed.
+Print Assumptions c05_snapshot_file_nonvacuous.
+
 (* ---- ANY NUMBER of crash / restart rounds.  `run_rounds fixed init 0 rs`: round (ops, k) runs the first k instructions
    of its operations from the restarted state of the previous round, then the process dies again — so a crash may hit the
    recovery work itself (the sidecar rebuild of the first append after a restart, the index back-fill).  After all rounds
